@@ -369,6 +369,11 @@ def compile_model(P, calls):
                 nident += nc ** n
                 nb += nc ** n
             ngroup += nc ** n
+    for g in C.aux:                      # auxiliary body predicates: atom ids for the specification only (never names)
+        C.namebase[g] = nb
+        nb += nc ** C.defs[g][0].split(")")[0].count("v")
+    C.natoms = nb
+    C.nchoices = nident
     C.failname = {}
     for _, a in calls:
         if any(is_var(x) for x in a[1]) and a not in C.failname:
@@ -421,6 +426,11 @@ def model_line(C, calls, sched):
                                        atom_name(C, a)) for l, a in calls)
     sc = " ".join("((%s) %s)" % (g, " ".join(map(str, code))) for g, code in sorted(sched.items()))
     return "GROUNDFO %s %d %s %s (%s) (%s) %d" % (ground_util.OPTS, C.nc, C.prog, C.bases, cs, sc, C.fuel)
+
+
+def check_line(C, calls, sched, nworlds=8):
+    """Input of `Drivers.GroundFOCheck`: the model's results against `Sem.wfm` of the Herbrand instantiation."""
+    return model_line(C, calls, sched).replace("GROUNDFO", "CHECKFO", 1) + " %d %d %d" % (C.natoms, C.nchoices, nworlds)
 
 
 # ------------------------------------------------------------------------------------------------ the real engine
@@ -706,16 +716,25 @@ def parse_model(out):
 
 # ------------------------------------------------------------------------------------------------ the phase
 MODULE = "ProbLogProofs.Properties.C01GroundFO"
-THEOREMS = []          # filled in below when the property file exists (see `_theorems`)
+THEOREMS = [
+    "ProbLogProofs.C01GroundFO.GroundFO_table_inv_partial",
+    "ProbLogProofs.C01GroundFO.GroundFO_valuation_exists_partial",
+]
+# the link between the model's program (auxiliary AD-body goals) and the inlined program sent to `Sem`, ground case
+MODULE_SPEC = "ProbLogProofs.Properties.C01GroundFOSpec"
+THEOREMS_SPEC = [
+    "ProbLogProofs.C01GroundFO.toSemRules_eq",
+    "ProbLogProofs.C01GroundFO.C01_groundFO_correct_example",
+]
+MODULE_INLINE = "ProbLogProofs.Properties.C01GroundInline"
+THEOREMS_INLINE = [
+    "ProbLogProofs.C01Ground.C01_ground_inline_same_truth",
+    "ProbLogProofs.C01Ground.C01_ground_inline_aux_false",
+]
 
 
 def _theorems():
-    import os
-    from lib import LEAN
-    path = os.path.join(LEAN, "ProbLogProofs", "Properties", "C01GroundFO.lean")
-    if not os.path.exists(path):
-        return []
-    return ["ProbLogProofs.C01GroundFO." + m for m in re.findall(r"^theorem (C0\w+|GroundFO_\w+)", open(path).read(), re.M)]
+    return THEOREMS
 
 
 def _work(item):
@@ -737,9 +756,9 @@ def gen_mixed(rng):
 def phase(ctx, kind, nq, nt):
     """kind: "all" (C01), "sched" (C03), "history" (C08) - as `ground_util.phase`, on programs with variables."""
     from lib import pmap
-    ths = _theorems()
-    if ths:
-        ctx.proof_phase(MODULE, ths)
+    ctx.proof_phase(MODULE, _theorems())
+    if kind == "all":
+        ctx.proof_phase(MODULE_INLINE, THEOREMS_INLINE)
     drv = ctx.driver("Drivers.GroundFO")
     sdrv = ctx.driver("Drivers.Spine")
     if drv is None or sdrv is None:
@@ -805,6 +824,40 @@ def phase(ctx, kind, nq, nt):
             find_failing_input(ctx, sdrv, P, mode, seed, kind)
     ctx.obligation("correspondence: grounding engine = first-order model on %d programs with variables (%s)" % (n, kind),
                    nbad == 0, "%d differences" % nbad)
+    semantic_check(ctx, sdrv, items, reals, kind, rng)
+
+
+def semantic_check(ctx, sdrv, items, reals, kind, rng):
+    """The statement `C01GroundFO.CorrectFO` is not a theorem yet: it is CHECKED per program by executing the Lean
+    definitions (`Drivers.GroundFOCheck`): in several worlds every reported key of the model evaluates to `Sem.wfm` of the
+    Herbrand instantiation `GroundFO.inst`, and every instance that is not reported is false - under the recorded
+    schedule and under an arbitrary one."""
+    if kind == "all":
+        ctx.proof_phase(MODULE_SPEC, THEOREMS_SPEC)
+    cdrv = ctx.driver("Drivers.GroundFOCheck")
+    if cdrv is None:
+        return
+    lines, owners = [], []
+    for (P, mode, seed, _), R in zip(items, reals):
+        calls = calls_of(P, mode)
+        C = compile_model(P, calls)
+        lines.append(check_line(C, calls, R.get("sched", {})))
+        owners.append((P, mode, seed))
+        lines.append(check_line(C, calls, {"999999": " ".join(str(rng.randrange(7)) for _ in range(6)).split()}))
+        owners.append((P, mode, seed))
+    outs = cdrv.run(lines)
+    nbad = 0
+    for (P, mode, seed), out in zip(owners, outs):
+        ctx.count("groundfo-model:semantic checks")
+        if out.startswith("ok ") and out.endswith(" t"):
+            continue
+        nbad += 1
+        ctx.disagree("first-order model vs Sem.wfm of the Herbrand instantiation (%s)" % kind, "%s | program: %s | calls: %s" % (
+            out, clauses_src(P).replace("\n", " "), calls_of(P, mode)))
+        if nbad <= 4:
+            find_failing_input(ctx, sdrv, P, mode, seed, kind)
+    ctx.obligation("semantic check: model results = Sem.wfm of the instantiation, unreported instances false (%d runs, %s)" % (
+        len(lines), kind), nbad == 0, "%d failures" % nbad)
 
 
 def sem_view(P, mode):
